@@ -133,9 +133,9 @@ type Inst struct {
 var bootSeq atomic.Int64
 
 // Boot compiles the concretised configuration with the real config package and wires it like `hookaido run`.
-func Boot(routes []Route, cseed int64, scratch string, fwd *FwdServer) (*Inst, error) {
+func Boot(routes []Route, cseed int64, scratch string, fwd *FwdServer, spell string) (*Inst, error) {
 	tag := fmt.Sprintf("p%dn%d", os.Getpid(), bootSeq.Add(1))
-	c := Concretise(routes, cseed, tag, fwd.URL, fwd.ClosedURL)
+	c := Concretise(routes, cseed, tag, fwd.URL, fwd.ClosedURL, spell)
 	for k, v := range c.Env {
 		os.Setenv(k, v)
 	}
@@ -278,3 +278,7 @@ func RowSeed(seed int64, ci, row, k int) int64 {
 
 // CfgSeed is the concretisation seed of a configuration.
 func CfgSeed(seed int64, ci int) int64 { return subSeed(seed, "cfg", strconv.Itoa(ci)) }
+
+// SpellFor is the non-inline spelling used for the varied requests of configuration ci (a function of the table
+// position only, so that coverage does not depend on the seed).
+func SpellFor(ci int) string { return Spellings[ci%len(Spellings)] }
